@@ -14,6 +14,7 @@ use std::collections::BTreeMap;
 
 pub mod edid_spec;
 pub mod gpu;
+pub mod small;
 pub mod sound;
 
 thread_local! {
@@ -104,7 +105,11 @@ pub fn run(ctx: &Ctx) -> (Vec<Case>, String, bool, BTreeMap<String, String>) {
     all.extend(par_cases(ctx, "C20", "snd", n_snd, |i, id| sound::one_case(ctx, i, id, "snd")));
     let n_snd_bad = ctx.tier.pick(300, 15_000);
     all.extend(par_cases(ctx, "C20", "snd-malformed", n_snd_bad, |i, id| sound::one_case(ctx, i, id, "snd-malformed")));
+    let n_small = ctx.tier.pick(400, 20_000);
+    all.extend(par_cases(ctx, "C20", "rng", n_small, |i, id| small::rng_case(ctx, i, id)));
+    all.extend(par_cases(ctx, "C20", "rtc", n_small, |i, id| small::rtc_case(ctx, i, id)));
+    all.extend(par_cases(ctx, "C20", "p9", n_small, |i, id| small::p9_case(ctx, i, id)));
     virtio_drivers::verif_hooks::set_spin_hook(None);
-    let rule = "gpu: random histories of public operations (resolution, get_edid, setup_framebuffer, change_resolution, flush, setup_cursor, move_cursor, drop) against a reference GPU that decodes every chain against the specification structures, with forced non-success responses, short responses and DMA allocation faults; non-trivial = at least one operation succeeded and changed driver state (framebuffer or cursor attached, or a flush completed)".to_string();
+    let rule = "one case = one driver instance on ModelTransport + LedgerHal against a reference device decoding every chain by the specification's structures, served from notify and from the busy-wait hook. gpu: random histories of resolution/get_edid/setup_framebuffer/change_resolution/flush/setup_cursor/move_cursor/drop with forced non-success responses (all defined codes, random u32, bit flips), header-only responses, DMA allocation faults, random and mutated-QEMU EDID blobs; snd: random histories of set_params/prepare/start/stop/release/jack_remap/capability getters/pcm_xfer against a scripted device (idle, in-order, bursts, out-of-order, error status)/pcm_xfer_nb+pcm_xfer_ok with completions in any order, forced control statuses, hostile item counts; snd-f10: the four deterministic F10 histories; rng/rtc/p9: random requests, every status byte, short/lying responses, valid and invalid mount tags. non-trivial = at least one operation succeeded with an effect (framebuffer/cursor attached or flushed; parameters accepted or frames delivered; entropy/clock value/9P reply returned)".to_string();
     (all, rule, false, BTreeMap::new())
 }
